@@ -93,6 +93,14 @@ def cases(seed=0, thorough=False):
             lambda e: {A}  # ) lambda
         )
         """.format(A=body(a, "e")), ["lambda e: {A}".format(A=body(a, "e"))], True, "D6 strings and comments with code-like content")
+    # ---- D1 with short names elsewhere on the logical line (letters that occur in the word lambda)
+    for tail_t in (".Select(m)", "; a = 1", " if d else None", ", b, l = 1, 2", ".Where(am)"):
+        a = nb()
+        pre = {".Select(m)": "m = 'lambda e: e.i_z'\n", ".Where(am)": "am = 'lambda e: e.i_z > 0'\n", " if d else None": "d = 1\n"}.get(tail_t, "")
+        line = "r = ds.Select(lambda e: %s)%s" % (body(a, "e"), tail_t)
+        if tail_t.startswith(", b"):
+            line = "r, b, l = ds.Select(lambda e: %s), 1, 2" % body(a, "e")
+        add(pre + line, ["lambda e: %s" % body(a, "e")], True, "D1 one lambda on the line, short names around it")
     # ---- one-line functions passed by name
     a = nb()
     add("""
